@@ -112,6 +112,12 @@ func (s *streamWriter) Invoke(msgs []actor.Envelope) {
 		})
 	}
 
+	// Nothing to send (every message of the batch was skipped): leave the connection
+	// alone. It may not even exist yet: the inbox is open while the first dial is retrying.
+	if len(messages) == 0 {
+		return
+	}
+
 	if !hasSender {
 		// nobody in this batch has a sender: keep the table empty.
 		senders = senders[:0]
